@@ -78,7 +78,7 @@ type comp struct {
 func newComp(s *simkit.Sim, plan *simkit.Plan) *comp {
 	dataDir := os.Getenv("MUTAGEN_DATA_DIRECTORY")
 	if dataDir == "" {
-		d, _ := os.MkdirTemp("/dev/shm", "verif-syncsim-data-")
+		d, _ := simkit.MkdirTemp("/dev/shm", "verif-syncsim-data-")
 		dataDir = d
 		os.Setenv("MUTAGEN_DATA_DIRECTORY", d)
 	}
